@@ -69,8 +69,9 @@
 (***************************************************************************)
 EXTENDS Integers, Sequences, FiniteSets, TLC
 
-CONSTANTS Alphabet,    \* the statements a program is made of (see Part 1; sets are defined in MacroScope_MC)
-          MaxLen,      \* statements per program
+CONSTANTS Families,    \* names of the program families explored in one run
+          Family(_),   \* family name -> [alphabet (set of statements, Part 1), maxlen (statements per program),
+                       \*                 printlen (programs up to this length are exported for replay)]; MacroScope_MC
           MaxSects,    \* SECTION statements per program
           MaxDepth,    \* nesting depth of sections
           Fixed        \* repaired deviations
@@ -210,7 +211,6 @@ NextPass(s) == [s EXCEPT !.pass = @ + 1, !.mom = -1, !.stk = <<>>, !.nsec = 0, !
 \* the pass loop: `while (ErrorCount == 0 && Repass)`; more = the program holds a forward reference
 Pass1(p) == RunPass(p, 1, InitM)
 Machine(p, more) == LET s1 == Pass1(p) IN IF s1.crash \/ s1.errs > 0 \/ ~more THEN s1 ELSE RunPass(p, 1, NextPass(s1))
-Pass3(p) == RunPass(p, 1, NextPass(Machine(p, TRUE)))
 
 Documented == {"UnknownInstruction", "DoubleMacro"}        \* errors the manual names for these situations
 Outcome(crash, ek, out) ==
@@ -279,13 +279,24 @@ Indef(p) == \E i \in 1..Len(p) : p[i].k = "ifdef"
 (***************************************************************************)
 (* Claims.                                                                 *)
 (***************************************************************************)
+\* The claims are stated on the runs of one program: m1 / m2 / m3 = the machine after one, two, three passes (m2 = m3 =
+\* m1 when the pass loop ends after pass 1), d1 / d2 = the declarative side for one pass / with a forward reference.
+Runs(p) ==
+  LET m1 == Pass1(p)
+      stop == m1.crash \/ m1.errs > 0
+      m2 == IF stop THEN m1 ELSE RunPass(p, 1, NextPass(m1))
+      m3 == IF stop \/ m2.crash THEN m2 ELSE RunPass(p, 1, NextPass(m2))
+      d1 == DPass1(p)
+      d2 == IF d1.ek # {} THEN d1 ELSE DRun(p, 1, [DInit EXCEPT !.defs = d1.defs], TRUE)
+  IN [m1 |-> m1, m2 |-> m2, m3 |-> m3, d1 |-> d1, d2 |-> d2]
+
 \* lookup as coded = the declarative rule, unless a named deviation fired
-Agrees(p) == \A more \in BOOLEAN :
-  LET m == Machine(p, more) IN m.devs = {} => MOutcome(m) = DOutcome(Decl(p, more))
-NoDevWhenFixed(p) == Fixed = ALLDEVS => \A more \in BOOLEAN : Machine(p, more).devs = {}
-DevsNamed(p) == \A more \in BOOLEAN : Machine(p, more).devs \subseteq ALLDEVS \ Fixed
+Agrees(r) == /\ r.m1.devs = {} => MOutcome(r.m1) = DOutcome(r.d1)
+             /\ r.m2.devs = {} => MOutcome(r.m2) = DOutcome(r.d2)
+NoDevWhenFixed(r) == Fixed = ALLDEVS => r.m1.devs = {} /\ r.m2.devs = {}
+DevsNamed(r) == r.m2.devs \subseteq ALLDEVS \ Fixed /\ r.m1.devs \subseteq r.m2.devs
 \* every pass after the first one reads the same table: pass 3 lays down what pass 2 did
-LaterPassesAlike(p) == LET m == Machine(p, TRUE) IN (m.pass = 2 /\ ~m.crash) => Pass3(p).out = m.out /\ Pass3(p).tab = NextPass(m).tab
+LaterPassesAlike(r) == (r.m2.pass = 2 /\ ~r.m2.crash) => r.m3.out = r.m2.out /\ r.m3.tab = NextPass(r.m2).tab
 
 \* the table as a whole: for EVERY name and EVERY section of the program - not only for the calls the program
 \* happens to make - FoundMacroByName() finds the innermost known definition
@@ -295,8 +306,8 @@ RECURSIVE StkOf(_, _)
 StkOf(s, h) == IF h = -1 THEN <<>> ELSE <<[h |-> s.sects[h + 1].parent]>> \o StkOf(s, s.sects[h + 1].parent)
 AllNames(p) == UNION {({p[i].n} \cup (IF p[i].k = "defin" THEN {p[i].o} ELSE {})) : i \in {j \in 1..Len(p) : p[j].k \notin {"sect", "ends"}}}
 QNames(p) == AllNames(p) \cup {JoinQ(q, n) : q \in {<<1>>, <<2>>, <<1, 2>>}, n \in AllNames(p)}
-TableIsInnermostKnown(p) ==
-  LET s == Pass1(p)   D == DPass1(p) IN
+TableIsInnermostKnown(p, r) ==
+  LET s == r.m1   D == r.d1 IN
   (s.devs = {} /\ ~s.crash) =>
     \A h \in -1..(Len(s.sects) - 1) : \A n \in QNames(p) :
       LET key == FoundKey([s EXCEPT !.mom = h, !.stk = StkOf(s, h)], n)
@@ -304,18 +315,23 @@ TableIsInnermostKnown(p) ==
       IN (key = <<>>) = (j = 0) /\ (key # <<>> => [s.tab[key].rec EXCEPT !.uninit = FALSE] = D.defs[j].rec)
 
 (***************************************************************************)
-(* Exploration: the state is the program text; every program over the      *)
-(* alphabet with <= MaxLen statements is a state.                          *)
+(* Exploration: the state is the program text (and the family it belongs   *)
+(* to); every program over the family's alphabet up to its length bound is *)
+(* a state.                                                                *)
 (***************************************************************************)
-VARIABLE prog
-Init == prog = <<>>
-Next == \E st \in Alphabet : Len(prog) < MaxLen /\ WF(Append(prog, st)) /\ prog' = Append(prog, st)
-Spec == Init /\ [][Next]_prog
+VARIABLES prog, fam
+Init == prog = <<>> /\ fam \in Families
+Next == \E st \in Family(fam).alphabet :
+          Len(prog) < Family(fam).maxlen /\ WF(Append(prog, st)) /\ prog' = Append(prog, st) /\ UNCHANGED fam
+Spec == Init /\ [][Next]_<<prog, fam>>
 
 P == Closed(prog)
-InvAgrees == Agrees(P)
-InvNoDevWhenFixed == NoDevWhenFixed(P)
-InvDevsNamed == DevsNamed(P)
-InvLaterPassesAlike == LaterPassesAlike(P)
-InvTable == TableIsInnermostKnown(P)
+R == Runs(P)
+InvAgrees == Agrees(R)
+InvNoDevWhenFixed == NoDevWhenFixed(R)
+InvDevsNamed == DevsNamed(R)
+InvLaterPassesAlike == LaterPassesAlike(R)
+InvTable == TableIsInnermostKnown(P, R)
+\* all of them on ONE evaluation of the runs (what the configurations use)
+InvAll == LET r == Runs(P) IN Agrees(r) /\ NoDevWhenFixed(r) /\ DevsNamed(r) /\ LaterPassesAlike(r) /\ TableIsInnermostKnown(P, r)
 =============================================================================
